@@ -326,6 +326,15 @@ def handlePure (st : St) (kind : String) (a : Args) (obs : String) : IO St := do
   match kind with
   | "ts.toslot" => chk (optNat (TS.toSlot (argInt a "g") (argInt a "t")))
   | "ts.tounix" => chk (toString (TS.toUnix (argInt a "g") (argNat a "s")))
+  | "ts.now" =>
+    -- the production clock: the current timeslot, read between two readings of the system clock
+    let g := argInt a "g"
+    (match TS.toSlot g (argInt a "lo"), TS.toSlot g (argInt a "hi"), obs.toNat? with
+      | some lo, some hi, some cur => if lo ≤ cur && cur ≤ hi then pure st else report st kind s!"{lo}..{hi}" obs
+      | _, _, _ => report st kind "a timeslot" obs)
+  | "ts.cadence" =>
+    chk (if TS.cadenceSafe (argInt a "trig") (TS.slotsOfNs (argInt a "per_ns")) (argInt a "half") (argInt a "win") (argInt a "shift")
+         then "ok" else "unsafe")
   | "ts.window" => chk (if decide (TS.inWindow (argInt a "ts") (argInt a "now")) then "in" else "out")
   | "codec.report.enc" =>
     chk (hx (Report.encode ⟨argNat a "id", argNat a "ts", argNat a "p", argHex a "sig"⟩))
@@ -377,6 +386,9 @@ def handlePure (st : St) (kind : String) (a : Args) (obs : String) : IO St := do
   | "c14.archive" => chk "ok"
   | "c14.rate" => chk "ok"
   | "c08.check" => chk "ok"
+  -- the real reporting loop against a server that accepts every connection and never answers: the rounds
+  -- it holds must not keep later rounds from starting (schedule: `c11_retry_after_failure`)
+  | "c11.check" => chk "ok"
   | "c05.crash" => chk "ok"
   | "codec.smap.enc1" =>
     let e : CEntry := (argHex a "key", ⟨arg a "banned" == "1", argHex a "loc", argNat a "http", argNat a "tcp", argNat a "udp"⟩)
@@ -530,7 +542,16 @@ def handleCl (st : St) (kind : String) (a : Args) (obs : String) : IO St := do
         | _ => ("failed", [])
       let disk := s!"gca={hx c'.diskGCA} id={c'.diskShortId} servers={canonCServers c'.diskServers}"
       let m := s!"{res} lockfree=1 sigs=true gk={hx c'.gcaKey} id={c'.shortId} servers={canonCServers c'.servers} disk=[{disk}] resent={joinWith "," (resent.map (fun r => s!"{r.ts}.{r.energy}"))}"
-      if m == obs then return st else report st kind m obs
+      -- the server the client reports to from now on: after a round that synced it is the server that
+      -- answered (attempts that never reached a listener are not in `choices`, so nothing is said about
+      -- the primary server after a round that failed)
+      let (obs, prim) := match obs.splitOn " primary=" with
+        | [x, p] => (x, some p)
+        | _ => (obs, none)
+      let st ← if m == obs then pure st else report st kind m obs
+      match prim, out with
+      | some p, .synced _ via => if hx via == p then return st else report st (kind ++ ":primary") (hx via) p
+      | _, _ => return st
   | "cl.round.begin" =>
     -- a round starts and is held inside its first attempt(s), all of which will fail
     match st.cl with
@@ -572,13 +593,22 @@ def handleCl (st : St) (kind : String) (a : Args) (obs : String) : IO St := do
         | _ => ("failed", [])
       let disk := s!"gca={hx c'.diskGCA} id={c'.diskShortId} servers={canonCServers c'.diskServers}"
       let m := s!"{res} lockfree=1 sigs=true gk={hx c'.gcaKey} id={c'.shortId} servers={canonCServers c'.servers} disk=[{disk}] resent={joinWith "," (resent.map (fun r => s!"{r.ts}.{r.energy}"))}"
-      if m == obs then return st else report st kind m obs
+      -- the server the client reports to from now on: after a round that synced it is the server that
+      -- answered (attempts that never reached a listener are not in `choices`, so nothing is said about
+      -- the primary server after a round that failed)
+      let (obs, prim) := match obs.splitOn " primary=" with
+        | [x, p] => (x, some p)
+        | _ => (obs, none)
+      let st ← if m == obs then pure st else report st kind m obs
+      match prim, out with
+      | some p, .synced _ via => if hx via == p then return st else report st (kind ++ ":primary") (hx via) p
+      | _, _ => return st
     | _, _ => report st kind "no-held-round" obs
   | "cl.restart" =>
     match st.cl with
     | none => report st kind "no-client" obs
     | some c =>
-      let c' := { c with gcaKey := c.diskGCA, shortId := c.diskShortId, servers := c.diskServers }
+      let c' := { c with gcaKey := c.diskGCA, shortId := c.diskShortId, servers := c.diskServers, primary := [] }
       let st := { st with cl := some c' }
       let m := s!"gk={hx c'.gcaKey} id={c'.shortId} servers={canonCServers c'.servers}"
       if m == obs then return st else report st kind m obs
